@@ -362,3 +362,159 @@ func c17TerminalStates(c *core.Ctx, r *core.Report) {
 			"the coordinator loop can return (stop reading) when it sees "+n+", but the multiplexer does not close its output in that state: it goes on to send the next state into a channel nobody reads and blocks forever, leaking the goroutine and the query state of every request that ends this way")
 	}
 }
+
+// c17SingleAdmitter — clause ADMIT (C).  The admission loop tests the capacity and registers the query in two steps
+// that are not one critical section; that is sound only as long as the loop is the only place that admits by
+// capacity.  An admitter is a function of the package in which a test of the running table's size (len of
+// allRunningQueries, GetActiveQueryCount(), or a boolean helper made from them) decides whether a call from which the
+// insertion into the table is reachable is made.  Either there is exactly one admitter, or every admitter makes its
+// test and its registering call with arqMapLock held (in the function or by all its callers).  A second admitter next
+// to the loop — a fast path that runs a query at once when a slot is free — can land between the loop's test and its
+// registration: both see the last free slot, and the table holds one query more than the limit.
+func c17SingleAdmitter(c *core.Ctx, r *core.Report, a *locks.Analysis, sm *summaries) {
+	table := c.Global(pkgQuery, "allRunningQueries")
+	active := c.Obj(pkgQuery, "GetActiveQueryCount")
+	arq := locks.ClassOf(c.Global(pkgQuery, "arqMapLock"))
+	pkgPath := core.ModPath + "/" + pkgQuery
+	callers := c.StaticCallers()
+	// functions from which the insertion is reachable
+	inserts := map[*ssa.Function]bool{}
+	var seeds []types.Object
+	for _, f := range c.RepoFunctions() {
+		for _, b := range f.Blocks {
+			for _, in := range b.Instrs {
+				if mu, ok := in.(*ssa.MapUpdate); ok {
+					if ld, ok := mu.Map.(*ssa.UnOp); ok && ld.X == ssa.Value(table) {
+						inserts[f] = true
+						top := f
+						for top.Parent() != nil {
+							top = top.Parent()
+						}
+						if o := top.Object(); o != nil {
+							seeds = append(seeds, o)
+						}
+					}
+				}
+			}
+		}
+	}
+	reach := sm.staticMayReach(objs(seeds...))
+	// capacity measures: len(allRunningQueries), GetActiveQueryCount()
+	isMeasure := func(v ssa.Value) bool {
+		for d := 0; d < 3; d++ {
+			switch x := v.(type) {
+			case *ssa.Convert:
+				v = x.X
+				continue
+			case *ssa.Call:
+				if core.IsCallTo(x, active) {
+					return true
+				}
+				if bi, ok := x.Call.Value.(*ssa.Builtin); ok && bi.Name() == "len" {
+					if ld, ok := x.Call.Args[0].(*ssa.UnOp); ok && ld.X == ssa.Value(table) {
+						return true
+					}
+				}
+			}
+			break
+		}
+		return false
+	}
+	// boolean helpers made from a measure (canRunQuery)
+	boolHelper := map[*ssa.Function]bool{}
+	for _, f := range c.RepoFunctions() {
+		if core.FnPkgPath(f) != pkgPath || f.Blocks == nil || f.Signature.Results().Len() != 1 || f.Object() == active {
+			continue
+		}
+		if bt, ok := f.Signature.Results().At(0).Type().Underlying().(*types.Basic); !ok || bt.Kind() != types.Bool {
+			continue
+		}
+		if len(f.Params) > 0 && inserts[f] {
+			continue
+		}
+		uses := false
+		for _, b := range f.Blocks {
+			for _, in := range b.Instrs {
+				if bo, ok := in.(*ssa.BinOp); ok && (isMeasure(bo.X) || isMeasure(bo.Y)) {
+					uses = true
+				}
+			}
+		}
+		// a helper that itself registers is an admitter, not a test
+		if uses && !reach[f] && !inserts[f] {
+			boolHelper[f] = true
+		}
+	}
+	type admitter struct {
+		fn       *ssa.Function
+		decision ssa.Instruction
+		reg      ssa.Instruction
+	}
+	var adm []admitter
+	for _, f := range c.RepoFunctions() {
+		if core.FnPkgPath(f) != pkgPath || f.Blocks == nil {
+			continue
+		}
+		var decisions []ssa.Value
+		for _, b := range f.Blocks {
+			for _, in := range b.Instrs {
+				switch x := in.(type) {
+				case *ssa.BinOp:
+					if isMeasure(x.X) || isMeasure(x.Y) {
+						decisions = append(decisions, x)
+					}
+				case *ssa.Call:
+					if h := x.Call.StaticCallee(); h != nil && boolHelper[h] {
+						decisions = append(decisions, x)
+					}
+				}
+			}
+		}
+		if len(decisions) == 0 {
+			continue
+		}
+		for _, ci := range core.CallsIn(f) {
+			callee := ci.Common().StaticCallee()
+			if callee == nil || !(inserts[callee] || reach[callee]) {
+				continue
+			}
+			for _, d := range decisions {
+				if core.BoolKnownAt(d, ci.Block()) != core.Maybe {
+					adm = append(adm, admitter{f, d.(ssa.Instruction), ci})
+					break
+				}
+			}
+		}
+	}
+	fns := map[*ssa.Function]bool{}
+	for _, x := range adm {
+		fns[x.fn] = true
+	}
+	r.Floor("GUARD", "functions that admit a query by the capacity of the running table", len(fns), 1)
+	construct := "query:one-admitter-or-test-and-registration-in-one-critical-section"
+	if len(fns) <= 1 {
+		r.OK("GUARD", construct, "-", fmt.Sprintf("%d admitter(s)", len(fns)))
+		return
+	}
+	held := func(in ssa.Instruction) bool {
+		f := in.Parent()
+		// the measure read closest to the decision: use the registering call and the decision's block head
+		if ff := a.Facts[f]; ff != nil && ff.MustHold(in, arq, false) {
+			return true
+		}
+		ok, _ := callersHold(c, a, callers, f, arq, false, map[*ssa.Function]bool{}, 0)
+		return ok
+	}
+	for _, x := range adm {
+		if !held(x.reg) {
+			var names []string
+			for f := range fns {
+				names = append(names, shortFn(f))
+			}
+			sort.Strings(names)
+			r.Violation("GUARD", construct, c.Pos(x.reg.Pos()), fmt.Sprintf("%d functions admit queries by testing the capacity of the running table (%s), and in %s the test and the registration are not one critical section of arqMapLock: an admission by one of them can land between the other's test and its registration, both see the last free slot, and more queries run than the limit allows", len(fns), strings.Join(names, ", "), shortFn(x.fn)))
+			return
+		}
+	}
+	r.OK("GUARD", construct, "-", fmt.Sprintf("%d admitters, each testing and registering under arqMapLock", len(fns)))
+}
